@@ -169,6 +169,12 @@ class ReaderProcess(mpctx_Process):
             for chunk in chunks:
                 yield (chunk,)
         elif len(files) == 2:
+            if self._file_format is FileFormat.FASTA:
+                # FASTA files may start with comment lines, which dnaio.read_paired_chunks()
+                # does not accept (unlike dnaio's FASTA parser and detect_file_format())
+                for file in files:
+                    while file.peek(1)[:1] == b"#":
+                        file.readline()
             for chunks in dnaio.read_paired_chunks(
                 files[0], files[1], self.buffer_size
             ):
